@@ -275,6 +275,32 @@ func procStart(pid int) string {
 }
 
 // Alive reports whether the process recorded as "pid starttime" is still running (zombies count as dead).
+// StillAlive reports whether the recorded process is alive and stays so: a process that is on its way out has closed its
+// files - which is what ends a `wait` for it - a moment before it becomes a zombie, and on a busy machine that moment can
+// be long. It is looked at for 0.3 s (20 s when the machine does not answer promptly); gone at any time means gone.
+func StillAlive(rec string) bool {
+	limit := 300 * time.Millisecond
+	t0 := time.Now()
+	for probed := false; ; {
+		if !Alive(rec) {
+			return false
+		}
+		if time.Since(t0) > limit {
+			if probed {
+				return true
+			}
+			probed = true
+			p0 := time.Now()
+			exec.Command("/bin/true").Run()
+			if time.Since(p0) < 100*time.Millisecond {
+				return true
+			}
+			limit = 20 * time.Second
+		}
+		time.Sleep(20 * time.Millisecond)
+	}
+}
+
 func Alive(rec string) bool {
 	f := strings.Fields(rec)
 	if len(f) < 1 {
